@@ -365,6 +365,58 @@ class ConnGen:
                 return m
         return dict(sent=self.sent(d.chance(0.5)), iface=iface, id=oid, name=d.choice(['future_request', 'set_v99_thing', 'new', 'frob']), args=extra)
 
+    def step_midsession(self, d):
+        """the log started mid-session: a message on an object whose creation the tool never saw (its id is not in the table),
+        possibly creating objects (which must exist from then on) or mentioning another such object"""
+        P = protocols()
+        if not getattr(self, 'ghosts', None):
+            self.ghosts = {}
+            for _ in range(d.int(1, 3)):
+                self.ghosts[self.next_client] = d.choice(['wl_compositor', 'wl_shm', 'wl_surface', 'wl_seat', 'wl_shm_pool', 'xdg_wm_base', 'wl_data_device_manager',
+                                                           'wl_subcompositor', 'wl_buffer', 'wl_region', 'zz_custom_v9'])
+                self.next_client += 1
+        gid = d.choice(sorted(self.ghosts))
+        iface = self.ghosts[gid]
+        if iface not in P:
+            args = [['int', d.int(-5, 5)]] if d.chance(0.5) else []
+            if d.chance(0.6):
+                i = self.alloc_client(d)
+                self._born(i, 'my_child')
+                args.append(['new', 'my_child', i])
+            return dict(sent=d.chance(0.5), iface=iface, id=gid, name=d.choice(FREE_NAMES), args=args)
+        if d.chance(0.25):
+            # a ghost as an object argument of a message on a tracked object
+            for oid, t in sorted(self.live.items()):
+                pi = P.get(t)
+                for pm in (pi.msgs if pi else []):
+                    idx = [k for k, a in enumerate(pm.args) if a.type == 'object' and a.interface == iface]
+                    if idx and all(a.type != 'new_id' and (a.type != 'object' or a.allow_null or k in idx) for k, a in enumerate(pm.args)):
+                        m = self._protocol_message_with(d, oid, t, pm, {idx[0]: ['obj', iface, gid]})
+                        if m is not None:
+                            return m
+        msgs = [m for m in P[iface].msgs if all(a.type != 'object' or a.allow_null or self.pick_obj(d, a.interface) is not None for a in m.args)]
+        creating = [m for m in msgs if any(a.type == 'new_id' and a.interface for a in m.args)]
+        if creating and d.chance(0.7):
+            msgs = creating
+        if not msgs:
+            return None
+        return self._protocol_message(d, gid, iface, d.choice(msgs))
+
+    def _protocol_message_with(self, d, oid, iface, pm, fixed):
+        pending, args = [], []
+        self._target = oid
+        save = (dict(self.live), dict(self.dead), self.next_client, self.next_server, dict(self.gens))
+        for k, pa in enumerate(pm.args):
+            self._args_so_far = args
+            a = fixed[k] if k in fixed else self.arg(d, pa, pm.is_event, pending, iface)
+            if a is None:
+                self.live, self.dead, self.next_client, self.next_server, self.gens = save
+                return None
+            args.append(a)
+        for i, t in pending:
+            self._born(i, t)
+        return dict(sent=self.sent(pm.is_event), iface=iface, id=oid, name=pm.name, args=args)
+
     def step_nulls(self, d):
         """a message whose nullable object arguments are all nil (nil arguments carry only their *declared* interface)"""
         P = protocols()
@@ -450,6 +502,7 @@ class ConnGen:
         elif kind == 'kinds': m = self.step_kinds(d)
         elif kind == 'newer': m = self.step_newer(d)
         elif kind == 'nulls': m = self.step_nulls(d)
+        elif kind == 'midsession': m = self.step_midsession(d)
         elif kind == 'appid': m = self.step_appid(d)
         elif kind == 'arrays': m = self.step_arrays(d)
         elif kind == 'sync': m = self.step_sync(d)
@@ -510,6 +563,8 @@ def labels_of(hist):
         if any(a[0] == 'new' and a[2] >= SERVER_BASE for a in m['args']): L.add('event-created-object')
         if not m['args']: L.add('zero-arg-message')
         if r['destroyed'] is not None: L.add('delete_id')
+        if getattr(r['target'], 'ghost', False): L.add('unseen-target' + ('-creates' if r['created'] else ''))
+        if any(getattr(o, 'ghost', False) for o in r['args'] if o is not None): L.add('unseen-object-arg')
         for a in m['args']:
             L.add('kind:' + a[0])
     return L
